@@ -53,6 +53,9 @@ NumSteps(S, k) == Len(SelectSeq(S.steps, LAMBDA s : s.k = k))
 Logged(S, k) == SelectSeq(S.script, LAMBDA s : s.k = k)
 
 \* values a Pick may take: fld is the field of the logged step carrying the value
+\* uniform draws: a small grid in model checking, any logged value in trace mode
+UGrid(S) == IF S.mode = "mc" THEN {0, U20 \div 4, U20 \div 2, 3 * (U20 \div 4), U20 - 1} ELSE 0..(U20 - 1)
+
 PickVals(S, k, fld, Allowed) ==
     IF S.mode = "mc" THEN Allowed
     ELSE LET lg == Logged(S, k)
@@ -199,7 +202,7 @@ GiveServiceTime(S, n, i, K(_)) ==
 
 ChooseNext(S, n) ==
     LET q == Nd(S, n).q
-        wq == [p \in DOMAIN q |-> WaitingOf(S, q[p])]
+        wq == Seqify([p \in DOMAIN q |-> WaitingOf(S, q[p])])
         ps == {p \in DOMAIN q : wq[p] # <<>>}
         chooseStep(T, i) == Step(T, [St("choose") EXCEPT !.n = n, !.i = i, !.wq = wq])
     IN IF ps = {} THEN {<<0, chooseStep(S, 0)>>}
@@ -214,8 +217,8 @@ ChooseNext(S, n) ==
 (* Routing.  Route(S, n, i, f): f = 0 next_node, 1 next_node_for_rerouting,   *)
 (* 2 next_node_for_jockeying.  Result: set of <<destination, state>>.         *)
 
-Counts(S) == [m \in 1..NNodes(S) |-> Nd(S, m).count]
-InSvcs(S) == [m \in 1..NNodes(S) |-> Nd(S, m).insvc]
+Counts(S) == Seqify([m \in 1..NNodes(S) |-> Nd(S, m).count])
+InSvcs(S) == Seqify([m \in 1..NNodes(S) |-> Nd(S, m).insvc])
 
 RouteStep(S, n, i, d, f) ==
     Step(S, [St("route") EXCEPT !.n = n, !.i = i, !.d = d, !.f = f, !.x = Cu(S, i).cls,
@@ -372,10 +375,10 @@ Preempt(S, n, v, j) ==
     LET pp == NodeCfg(S, n).pp
         cv == Cu(S, v)
         sid == cv.srv
-        ctx == [a \in DOMAIN Nd(S, n).srv |->
+        ctx == Seqify([a \in DOMAIN Nd(S, n).srv |->
                   LET s == Nd(S, n).srv[a]
                       c == Cu(S, s.cust)
-                  IN <<s.id, s.cust, c.prio, c.ss, IF c.blk THEN 1 ELSE 0>>]
+                  IN <<s.id, s.cust, c.prio, c.ss, IF c.blk THEN 1 ELSE 0>>])
         S0 == Step(S, [St("preempt") EXCEPT !.n = n, !.i = v, !.j = j, !.wq = ctx])
         S1 == SetCu(S0, v, [cv EXCEPT !.ost = cv.st])
         afterVictim ==
@@ -606,7 +609,7 @@ Spawn(S, n, k) ==
                                        THEN LET U3 == Step(U2, [St("baulk") EXCEPT !.n = n, !.i = id, !.x = nd.count])
                                             IN {ExitAccept(WriteRec(U3, id, brec("baulk")), id, FALSE)}
                                        ELSE send(U2)
-                                    : u \in PickVals(T1, "bu", "x", {0, U20 \div 4, U20 \div 2, 3 * (U20 \div 4), U20 - 1})}
+                                    : u \in PickVals(T1, "bu", "x", UGrid(T1))}
     IN Bind(withRoute, admit)
 
 RECURSIVE SpawnLoop(_, _, _, _)
